@@ -103,6 +103,17 @@ fn explore(ctx: &Ctx) -> Outcome {
             total.absorb(t);
         }
     }
+    // large archives (tables and text beyond 64 KiB)
+    for c in binfam::big_cases() {
+        let mut t = Tally::new();
+        t.cases += 1;
+        t.nontrivial += 1;
+        if let Some((sig, summary)) = judge(&c, &mut t, false) {
+            t.violate(format!("big:{}", sig), summary, json!({"big": format!("{:?}/{} bytes", c.endian, c.size())}));
+        }
+        total.absorb(t);
+    }
+    layers.push(json!({"family": "large archives (300 and 20 000 cells, strings/pointers/labels interleaved)", "archives": binfam::big_cases().len(), "completed": true}));
     let s = binfam::case_at(&binfam::cfgs(ctx.tier, true)[0], 8, 12345);
     total.sample(binfam::describe(&s));
     let mut o = total.into_outcome(
@@ -118,6 +129,18 @@ fn explore(ctx: &Ctx) -> Outcome {
 }
 
 fn replay(_ctx: &Ctx, case: &Value) -> Vec<Violation> {
+    if let Some(tag) = case["big"].as_str() {
+        let mut out = Vec::new();
+        for c in binfam::big_cases() {
+            if format!("{:?}/{} bytes", c.endian, c.size()) == tag {
+                let mut t = Tally::new();
+                if let Some((sig, summary)) = judge(&c, &mut t, false) {
+                    out.push(Violation { sig: format!("big:{}", sig), summary, case: case.clone() });
+                }
+            }
+        }
+        return out;
+    }
     let c = binfam::content_from_json(case);
     let mut t = Tally::new();
     match judge(&c, &mut t, true) {
